@@ -1,6 +1,7 @@
 (* C15 - validation cursors never lose a pending validation or pass an unexecuted tx.
    This file contains only property theorems (closed by [exact]) and their assumption audit. *)
-From Grevm Require Import Base.Util Cursor.Model Cursor.Proofs.
+From Grevm Require Import Base.Util Cursor.Model Cursor.Proofs Frontier.Model Frontier.Proofs.
+From Grevm Require Stm.Spec Stm.Core Stm.Safety.
 
 (* no index at or beyond the limit a claim was called with is ever handed out - any number of
    threads, any interleaving, loads as stale as coherence allows, spurious CAS failures *)
@@ -34,6 +35,51 @@ Proof.
   intros v0 tr s H Hnr. eapply sdf_NoDup. exact (handed_once_inv _ _ _ H Hnr I).
 Qed.
 
+(* ---- the first-unexecuted frontier (any number of publishers, advancers and readers; frontier
+   loads as stale as coherence allows; flag loads may be stale-false) ---- *)
+
+(* the frontier never passes a transaction that has not completed an execution: every value the
+   frontier ever held, and every value current() returned, has all flags below it set *)
+Theorem C15_frontier_never_passes_unexecuted :
+  forall n tr s, frun (finit n) tr = Some s ->
+    (forall v, In v (fhist s) -> v <= fn s /\ forall k, k < v -> flags s k = true) /\
+    (forall t lo r, In (t, lo, r) (returned s) -> forall k, k < r -> flags s k = true).
+Proof.
+  intros n tr s H. pose proof (finv_run _ _ _ (finv_init n) H) as I. split.
+  - intros v Hv. exact (fi_sound _ I v Hv).
+  - intros t lo r Hr. exact (proj2 (fi_ret _ I t lo r Hr)).
+Qed.
+
+Theorem C15_frontier_monotone :
+  forall n tr s v, frun (finit n) tr = Some s -> In v (fhist s) -> v <= fcur s.
+Proof. intros n tr s v H. apply (fi_mono _ (finv_run _ _ _ (finv_init n) H)). Qed.
+
+(* a scan that found completed transactions publishes them: after its fetch_max the frontier is
+   beyond where the scan started, whatever order the publishers completed in *)
+Theorem C15_advance_makes_progress :
+  forall s t v prev s' ret lo start e,
+    finv s -> fpcs s t = FAdvMax ret lo start e -> fstep s (FetchMax t v prev) = Some s' ->
+    start < fcur s' /\ e <= fcur s'.
+Proof.
+  intros s t v prev s' ret lo start e I E H. simpl in H. rewrite E in H.
+  destruct (Nat.eqb v e && Nat.eqb prev (fcur s)) eqn:Eb; [|discriminate]. inversion H; subst; clear H.
+  pose proof (fi_pcs _ I t) as P. rewrite E in P. simpl in P. destruct P as [Hlt _].
+  unfold fcur. simpl. rewrite last_app1. split; lia.
+Qed.
+
+(* ---- a validation that predates a rewind covering it never makes its transaction final
+   (protocol level, Stm model: every interleaving of the scheduler's hook events) ---- *)
+Theorem C15_stale_validation_never_final :
+  forall (b : Stm.Spec.block) tr s j n eff s',
+    Stm.Core.run_trace b Stm.Core.init tr = Some s ->
+    Stm.Core.step b s (Stm.Core.Finalize j n eff) = Some s' ->
+    Stm.Core.st s j = Stm.Core.Unconfirmed /\ forall i, i <= j -> Stm.Core.lower s i < Stm.Core.unconf s j.
+Proof. exact Stm.Safety.finality_needs_validation_newer_than_rewinds. Qed.
+
+Print Assumptions C15_frontier_never_passes_unexecuted.
+Print Assumptions C15_frontier_monotone.
+Print Assumptions C15_advance_makes_progress.
+Print Assumptions C15_stale_validation_never_final.
 Print Assumptions C15_claim_below_limit.
 Print Assumptions C15_no_index_skipped.
 Print Assumptions C15_rewound_reoffered.
